@@ -597,6 +597,9 @@ class BaseSection(base.Sectionable):
         :param position: index at which the object should be inserted.
         :param obj: Section or Property object.
         """
+        # Refuse a position that is not an integer before anything is changed.
+        position = operator.index(position)
+
         if isinstance(obj, BaseSection):
             if obj.name in self.sections:
                 raise ValueError("odml.Section.insert: "
